@@ -7,7 +7,9 @@ pub mod c05;
 pub mod c06;
 pub mod c09;
 pub mod c10;
+pub mod c16;
 pub mod c19;
+pub mod e3;
 pub mod e4;
 pub mod mapmodel;
 
@@ -20,6 +22,10 @@ pub fn run(id: &str, tier: Tier) -> i32 {
         "C09" => c09::run(tier),
         "C10" => c10::run(tier),
         "C19" => c19::run(tier),
+        "C07" => e3::run_c07(tier),
+        "C08" => e3::run_c08(tier),
+        "C17" => e3::run_c17(tier),
+        "C16" => c16::run(tier),
         "C11" => e4::run_c11(tier),
         "C12" => e4::run_c12(tier),
         _ => {
@@ -38,6 +44,10 @@ pub fn recheck(id: &str, case: &Value) -> Vec<String> {
         "C09" => c09::recheck(case),
         "C10" => c10::recheck(case),
         "C19" => c19::recheck(case),
+        "C07" => e3::recheck_text(case),
+        "C08" => e3::recheck_typed(case),
+        "C17" => e3::recheck_rt(case),
+        "C16" => c16::recheck(case),
         "C11" => e4::recheck_c11(case),
         "C12" => e4::recheck_c12(case),
         _ => vec![],
